@@ -264,7 +264,11 @@ pub fn run(ctx: &mut Ctx) {
                         lv[at] = pat.clone();
                         let l = SItem::List(lv);
                         let mut target = t.clone();
-                        if r.bool() {
+                        if r.chance(1, 3) {
+                            // the WHOLE target is L: it becomes equal to the pattern only through the pass itself
+                            // (a "target equals pattern" test made after the pass replaces a second time)
+                            target = l.clone();
+                        } else if r.bool() {
                             let mut k = r.below(target.points());
                             if k == 0 {
                                 target = SItem::List(vec![l.clone(), t.clone()]);
